@@ -197,7 +197,7 @@ func genFileMgr() {
 	m.strs("configFolders", folders, "ConfigFolders of nginx/config/generator.go (evaluated)")
 
 	folderIdent := regexp.MustCompile(`^(config|http|stream|mainIncludes|secrets|includes)Folder$`)
-	var uses, useFolders, fileConsts []string
+	var uses, useFolders, useShapes, fileConsts []string
 	dir := filepath.Join(repo, "internal/mode/static/nginx/config")
 	ents, err := os.ReadDir(dir)
 	if err != nil {
@@ -261,6 +261,7 @@ func genFileMgr() {
 						}
 					}
 					uses = append(uses, n0(s, x)+": "+s.text(e))
+					useShapes = append(useShapes, fmShape(s, e, folderIdent))
 					for _, id := range ids {
 						useFolders = append(useFolders, gen.strConst(id))
 					}
@@ -274,6 +275,9 @@ func genFileMgr() {
 	m.strs("generatedFileConsts", fileConsts, "every `…File` string constant of package nginx/config (evaluated)")
 	m.strs("generatedPathExprs", uses, "every expression in package nginx/config that builds a path from a folder constant")
 	m.strs("generatedPathFolders", useFolders, "the folder constants those expressions start from (evaluated)")
+	m.strs("generatedPathShapes", useShapes,
+		"shape of each of those expressions: `folder+/…` (folder constant, then a literal starting with a slash), "+
+			"`join(folder,…)` (filepath.Join with the folder first) or `other`")
 
 	// ---- nginx.conf: the folders NGINX loads globbed includes from
 	conf, err := os.ReadFile(filepath.Join(repo, "internal/mode/static/nginx/conf/nginx.conf"))
@@ -332,3 +336,36 @@ func genFileMgr() {
 }
 
 func n0(s *srcFile, fd *ast.FuncDecl) string { return filepath.Base(s.path) + ":" + fd.Name.Name }
+
+// fmShape classifies how an expression builds a path from a folder constant.
+func fmShape(s *srcFile, e ast.Expr, folderIdent *regexp.Regexp) string {
+	isFolder := func(x ast.Expr) bool {
+		id, ok := x.(*ast.Ident)
+		return ok && folderIdent.MatchString(id.Name)
+	}
+	switch x := e.(type) {
+	case *ast.BinaryExpr:
+		// flatten the left-associative + chain
+		var ops []ast.Expr
+		var flat func(b ast.Expr)
+		flat = func(b ast.Expr) {
+			if be, ok := b.(*ast.BinaryExpr); ok && be.Op == token.ADD {
+				flat(be.X)
+				ops = append(ops, be.Y)
+				return
+			}
+			ops = append(ops, b)
+		}
+		flat(x)
+		if len(ops) >= 2 && isFolder(ops[0]) {
+			if bl, ok := ops[1].(*ast.BasicLit); ok && bl.Kind == token.STRING && strings.HasPrefix(strLit(bl), "/") {
+				return "folder+/…"
+			}
+		}
+	case *ast.CallExpr:
+		if s.text(x.Fun) == "filepath.Join" && len(x.Args) >= 2 && isFolder(x.Args[0]) {
+			return "join(folder,…)"
+		}
+	}
+	return "other: " + s.text(e)
+}
